@@ -11,6 +11,9 @@
 (*                                                                         *)
 (* Two kinds of event are observations rather than steps:                  *)
 (*   <<"poll", tok, id, state>>  ConnReq.ID() and ConnReq.State() read     *)
+(*   <<"quiet">>  a goroutine dump (one stop-the-world snapshot) showed      *)
+(*        every goroutine inside the package blocked: no step other than   *)
+(*        a timer firing or a step of the environment is possible          *)
 (*   <<"end", n, closed, inClosed>>  census after Stop+Wait and after all  *)
 (*        Dial calls returned: n goroutines are still inside the package,  *)
 (*        the sets of outbound / inbound connections that were closed      *)
@@ -46,7 +49,10 @@ UCallAny == \/ E[1] \in {"disc", "rem"} /\ UCall(E[1], E[3], E[4])
 
 Matched ==
   /\ More
-  /\ \/ E[1] \notin {"poll", "end"} /\ (Next \/ UCallAny) /\ ev' = E
+  /\ \/ E[1] \notin {"poll", "end", "quiet"} /\ (Next \/ UCallAny) /\ ev' = E
+     \/ /\ E[1] = "quiet"
+        /\ ~ENABLED Running
+        /\ UNCHANGED vars
      \/ /\ E[1] = "poll"
         /\ \E r \in Objs : rq[r].tok = E[2] /\ rq[r].id = E[3] /\ rq[r].st = E[4]
         /\ UNCHANGED vars
